@@ -251,4 +251,3 @@ func main() {
 	c.Assume("error sub-classes (mismatch / invalid / version) are compared structurally as 'rejected inside the mutator chain'; their wording is informative only; PersistedQueryNotFound is compared by message")
 	c.Finish()
 }
-
